@@ -109,7 +109,9 @@ func uniPad(r *hx.Rand, s string) string {
 // network, the addresses just outside, the sibling networks); drawn by genItem while such a case is built.
 var probeIPs []string
 
-func v4(u uint32) string { return fmt.Sprintf("%d.%d.%d.%d", byte(u>>24), byte(u>>16), byte(u>>8), byte(u)) }
+func v4(u uint32) string {
+	return fmt.Sprintf("%d.%d.%d.%d", byte(u>>24), byte(u>>16), byte(u>>8), byte(u))
+}
 
 func v6(hi uint64, lo uint16) string {
 	return net.IP{byte(hi >> 56), byte(hi >> 48), byte(hi >> 40), byte(hi >> 32), byte(hi >> 24), byte(hi >> 16), byte(hi >> 8), byte(hi),
@@ -447,7 +449,7 @@ func emitObs(id string, k caseT, res string, ok bool, st *hx.Stats) string {
 		mh = 1 // (only for the non-triviality classification below: the MODEL normalises the configured value itself)
 	}
 	peer := peerOf(q.Remote)
-	l := hx.NewLine(id).I64(int64(c.MaxHops)).Str(q.Remote).Nat(len(headers))
+	l := hx.NewLine(id).I64(int64(c.MaxHops)).Str(q.Remote)
 	nontrivial := false
 	// the `net` table: every candidate item of every configured header, classified for real
 	tbl := map[string]bool{}
@@ -462,35 +464,43 @@ func emitObs(id string, k caseT, res string, ok bool, st *hx.Stats) string {
 	for k, v := range q.Hdr {
 		canonHdr[http.CanonicalHeaderKey(k)] = v
 	}
-	for _, h := range headers {
-		v := canonHdr[http.CanonicalHeaderKey(h)] // Header.Get canonicalises the configured name
-		if h == "X-Forwarded-For" {
-			l.Tok("X").Str(v)
-			parts := splitTrim(v)
-			sawT, sawU, sawBad := false, false, false
-			for _, p := range parts {
-				add(p)
-				if ip, ok := parseOne(p); ok {
-					if c.trusted(ip) {
-						sawT = true
+	// the header lists: as CONFIGURED (possibly empty) and the default pair — the model applies compileProxies'
+	// "no headers configured: X-Forwarded-For, then X-Real-IP" itself (Model.compileHeaders)
+	emitHdrs := func(hs []string) {
+		l.Nat(len(hs))
+		for _, h := range hs {
+			v := canonHdr[http.CanonicalHeaderKey(h)] // Header.Get canonicalises the configured name
+			if h == "X-Forwarded-For" {
+				l.Tok("X").Str(v)
+				parts := splitTrim(v)
+				sawT, sawU, sawBad := false, false, false
+				for _, p := range parts {
+					add(p)
+					if ip, ok := parseOne(p); ok {
+						if c.trusted(ip) {
+							sawT = true
+						} else {
+							sawU = true
+						}
 					} else {
-						sawU = true
+						sawBad = true
 					}
-				} else {
-					sawBad = true
 				}
-			}
-			if (sawT && sawU) || sawBad || len(parts) > mh+1 {
-				nontrivial = true
-			}
-		} else {
-			l.Tok("S").Str(v)
-			add(strings.TrimSpace(v))
-			if _, ok := parseOne(v); !ok && v != "" {
-				nontrivial = true
+				if (sawT && sawU) || sawBad || len(parts) > mh+1 {
+					nontrivial = true
+				}
+			} else {
+				l.Tok("S").Str(v)
+				add(strings.TrimSpace(v))
+				if _, ok := parseOne(v); !ok && v != "" {
+					nontrivial = true
+				}
 			}
 		}
 	}
+	emitHdrs(c.Headers)
+	emitHdrs([]string{"X-Forwarded-For", "X-Real-IP"})
+	_ = headers
 	add(peer) // isTrusted(peer): net.ParseIP on the string as it is
 	l.Nat(len(order))
 	for _, item := range order {
